@@ -83,7 +83,7 @@ class C01:
                    'Matrix block formats are not generated (documented as unsupported)',
                    'the comparison of the re-read document with the original uses the public accessors of every '
                    'parameter known to tools/translate_params.py; floats are compared at six decimals']
-    ncases_quick, ncases_thorough = 700, 20000
+    ncases_quick, ncases_thorough = 700, 60000
 
     @classmethod
     def gen(cls, ctx):
@@ -142,7 +142,7 @@ class C02:
                    'are counted but are not part of the property',
                    'not generated (documented stubs): Matrix block content, audioProgrammeReferenceScreen content, '
                    'zoneExclusion, audioMXFLookUp']
-    ncases_quick, ncases_thorough = 400, 20000
+    ncases_quick, ncases_thorough = 400, 60000
     trees = {}
 
     @classmethod
